@@ -81,9 +81,13 @@ Open Scope Z_scope.
 
 Section Eq.
   Variable S : schema.
-  Local Notation conf_ty := (Roundtrip.conf_ty S).
-  Local Notation conf_list := (Roundtrip.conf_list S).
-  Local Notation conf_fields := (Roundtrip.conf_fields S).
+  Variable OPS : op_table.
+  Variable ATTRS : attr_table.
+  Variable OBJS : obj_table.
+  Local Notation conf_ty := (Roundtrip.conf_ty S OPS ATTRS OBJS).
+  Local Notation conf_list := (Roundtrip.conf_list S OPS ATTRS OBJS).
+  Local Notation conf_fields := (Roundtrip.conf_fields S OPS ATTRS OBJS).
+  Local Notation conf_custom_of := (Roundtrip.conf_custom_of S OPS ATTRS OBJS).
 
 '''
 for (n, p, b) in split_funcs(conf):
